@@ -254,6 +254,12 @@ def rule_scalar_classifier(db: ProgramDB) -> List[Instance]:
                     users.append((m, call, t))
     if not users:
         raise AnalysisError("Flatten / Concatenate no longer classify values through a shared helper")
+    for cname in ("Flatten", "Concatenate"):
+        if not any(m.cls is not None and m.cls.name == cname for m, _, _ in users):
+            c = db.cls(cname)
+            out.append(inst("SCALAR-CLASSIFIER", VIOLATION, c, f"{cname}[classifies through the shared helper]",
+                            f"{cname} no longer asks the shared classifier whether a value is a collection (it tries to iterate / extend instead): "
+                            f"a string is iterable, so a scalar string value is split into characters and '' disappears"))
     seen = set()
     for m, call, t in users:
         if t.qualname in seen:
